@@ -190,8 +190,9 @@ def run(ctx):
     if ok:
         pd_, bn = [e.id for e in unpack[0].targets[0].elts]
         arr = ast.unparse(unpack[0].value.args[0])
-        ok = ast.unparse(wkeys.get('packed_digits')) == pd_ and ast.unparse(wkeys.get('binary')) == bn and \
-            arr in ast.unparse(wkeys.get('dtype')) and arr in ast.unparse(wkeys.get('shape'))
+        def src_of(k):
+            return ast.unparse(wkeys[k]) if k in wkeys else ''
+        ok = src_of('packed_digits') == pd_ and src_of('binary') == bn and arr in src_of('dtype') and arr in src_of('shape')
     ctx.ob('C18.b', f'{rd.qual}._json_dict_:flag-provenance', ok, '' if ok else 'packed_digits/binary are not the pair returned by _pack_digits, or dtype/shape come from another array', rm.rel, jd.lineno)
     rets = [r for r in ast.walk(pk) if isinstance(r, ast.Return) and isinstance(r.value, ast.Tuple) and len(r.value.elts) == 2]
     ok = len(rets) >= 2 and all(isinstance(r.value.elts[1], ast.Constant) and isinstance(r.value.elts[1].value, bool) for r in rets)
